@@ -312,3 +312,77 @@ def _(c):
         calls = [ast.unparse(n) for n in ast.walk(fn) if isinstance(n, ast.Call)]
         return rets == ['f.buffer.tell()'] and 'f.flush()' in calls, {'returns': rets}
     c.const('watermark-compares-the-uncompressed-size', size_is_uncompressed)
+
+
+# --------------------------------------------------------------------------
+# the three copies of the directory walk (C16): the device check, the loop-id check and the prune-and-record block of
+# load_unregistered_manifests and update_entries_for_directory are the *same statements* as in the walker of
+# assert_directory_verifies, whose contract is proved; what is proved about those statements (ManifestCrossDevice for a
+# directory on another device, ManifestSymlinkLoop exactly for an id recorded for the parent directory, the listing is
+# pruned by skip_dirs and a directory that is descended into records the ids above it followed by its own) therefore
+# holds for each copy.  The classification loop in between differs per copy and is not covered by this transfer.
+
+def _walk_loop(fn):
+    for n in ast.walk(fn):
+        if isinstance(n, ast.For) and ast.unparse(n.target) == '(dirpath, dirnames, filenames)':
+            return n
+    return None
+
+
+def _blocks(loop):
+    """(block A, block C, other statements) of one walker loop body"""
+    body = loop.body
+    texts = [ast.unparse(s) for s in body]
+    try:
+        a0 = texts.index('dir_st = os.stat(dirpath)')
+        a1 = next(i for i, t in enumerate(texts) if t.startswith("if relpath == '.':"))
+        c0 = next(i for i, s in enumerate(body) if isinstance(s, ast.For) and ast.unparse(s.iter) == 'skip_dirs')
+    except (ValueError, StopIteration):
+        return None
+    A = body[a0:a1 + 1]
+    C = body[c0:c0 + 2]
+    rest = body[:a0] + body[a1 + 1:c0] + body[c0 + 2:]
+    return A, C, rest
+
+
+@contract(RL, '<walkers>', props=['C16'])
+def _(c):
+    c.trusted = True
+
+    def same_blocks(repo):
+        quals = ['ManifestRecursiveLoader.assert_directory_verifies._walk_directory',
+                 'ManifestRecursiveLoader.load_unregistered_manifests',
+                 'ManifestRecursiveLoader.update_entries_for_directory']
+        got = {}
+        for q in quals:
+            loop = _walk_loop(_fn(repo, q))
+            b = _blocks(loop) if loop is not None else None
+            if b is None:
+                return False, {'missing': q}
+            got[q] = b
+        ref = got[quals[0]]
+        bad = []
+        for q in quals[1:]:
+            A, C, rest = got[q]
+            if [ast.dump(s) for s in A] != [ast.dump(s) for s in ref[0]]:
+                bad.append((q, 'device/loop-id block differs'))
+            if [ast.dump(s) for s in C] != [ast.dump(s) for s in ref[1]]:
+                bad.append((q, 'prune-and-record block differs'))
+        # outside the two blocks nothing touches what they rely on
+        for q in quals:
+            A, C, rest = got[q]
+            for s in rest:
+                for n in ast.walk(s):
+                    if isinstance(n, (ast.Assign, ast.AugAssign, ast.Delete)):
+                        tg = n.targets if not isinstance(n, ast.AugAssign) else [n.target]
+                        for t in tg:
+                            tt = ast.unparse(t)
+                            if tt.split('[')[0] in ('directory_ids', 'dirnames', 'dir_id', 'parent_dir_ids', 'dir_st', 'dirpath') \
+                                    and not (tt == 'dirnames' and False):
+                                bad.append((q, 'assigns %s outside the blocks' % tt))
+                    if isinstance(n, ast.Call) and isinstance(n.func, ast.Attribute) \
+                            and ast.unparse(n.func.value) in ('directory_ids', 'dirnames', 'parent_dir_ids') \
+                            and n.func.attr not in ('get',):
+                        bad.append((q, 'calls %s outside the blocks' % ast.unparse(n.func)))
+        return not bad, {'bad': bad, 'blockA': [ast.unparse(s)[:60] for s in ref[0]], 'blockC': [ast.unparse(s)[:60] for s in ref[1]]}
+    c.const('device-check-loop-check-and-pruning-are-the-proved-statements-in-all-three-walkers', same_blocks)
